@@ -59,9 +59,11 @@ Definition corr_of (p1 p2 : pt) (rest : list pt) : Q :=
   | _ => 0
   end.
 
+(* Qred keeps the exact rationals in lowest terms (Qred q == q): without it the
+   un-reduced denominators multiply at every addition and the model cannot be run *)
 Fixpoint simp (l : list pt) : Q :=
   match l with
-  | p0 :: p1 :: ((p2 :: rest) as t2) => triple p0 p1 p2 + corr_of p1 p2 rest + simp t2
+  | p0 :: p1 :: ((p2 :: rest) as t2) => Qred (Qred (triple p0 p1 p2) + Qred (corr_of p1 p2 rest) + simp t2)
   | _ => 0
   end.
 
@@ -80,12 +82,12 @@ Definition central (mu : Q) (k : nat) (x p : Q) : Q := p * pw (x - mu) k.
 
 (* moments() as written in the pinned tree *)
 Definition moments_pinned (l : list pt) : Q * Q * Q * Q :=
-  let mu := integ (fun x p => p * x) l in
+  let mu := Qred (integ (fun x p => p * x) l) in
   (mu, integ (central mu 2) l, integ (central mu 3) l, integ (central mu 4) l).
 
 (* repaired: the tabulated density is renormalised on its own grid first *)
 Definition normalise (l : list pt) : list pt :=
-  let Z := integ (fun _ p => p) l in map (fun xp => (fst xp, snd xp / Z)) l.
+  let Z := integ (fun _ p => p) l in map (fun xp => (fst xp, Qred (snd xp / Z))) l.
 
 Definition moments (l : list pt) : Q * Q * Q * Q := moments_pinned (normalise l).
 
